@@ -38,7 +38,7 @@ def generate(seed, tier, k):
     doc = gen.gen_job(seed, profile="tangent")
     if k % 4 == 3:
         gen.add_faults(doc, seed, kinds=["solver_inexact", "solver_scale", "solver_flip"], p_fault=1.0)
-    doc["c01"] = {"probe_seed": r.randrange(1 << 30), "probes_per_substep": r.choice([1, 2, 3]), "parallel": r.random() < 0.3, "pool": {"n": r.choice([2, 3, 4, 7, 16]), "order": r.choice(["shuffle", "lazy", "reverse"]), "seed": r.randrange(1 << 30)}}
+    doc["c01"] = {"probe_seed": r.randrange(1 << 30), "probes_per_substep": r.choice([1, 2, 3]), "parallel": r.random() < (0.8 if any(i_["type"] == "FormItem" for i_ in doc["items"]) else 0.3), "pool": {"n": r.choice([2, 3, 4, 7, 16]), "order": r.choice(["shuffle", "lazy", "reverse"]), "seed": r.randrange(1 << 30)}}
     return doc
 
 
